@@ -167,4 +167,62 @@ theorem history_restores_any (sim : Sim) (hb : sim.ens ≠ .base) (ts : List ATr
     obtain ⟨i1, i2⟩ := ih _ g1 hrest
     exact ⟨i1, g2, i2⟩
 
+/-! ### histories that span several `run()` calls, with the user editing the atoms in between -/
+
+inductive Event
+  | trial (t : ATrial)
+  | newRun (pos : List V3) (cell : Option V3)
+
+def estep (sim : Sim) : Event → State → State
+  | .trial t, s => (astep sim t s).2
+  | .newRun p c, s => newRun sim s p c
+
+def runE (sim : Sim) : List Event → State → State
+  | [], s => s
+  | e :: es, s => runE sim es (estep sim e s)
+
+def EHistoryOK (sim : Sim) : List Event → State → Prop
+  | [], _ => True
+  | e :: es, s =>
+    (match e with
+     | .trial t => AKindOK sim s t.kind
+     | .newRun _ _ => True) ∧ EHistoryOK sim es (estep sim e s)
+
+/-- every trial of the history that is not accepted leaves the atoms as they were just before it — in particular as
+    the user left them when the trial is the first of a new run -/
+def AllRestoredE (sim : Sim) : List Event → State → Prop
+  | [], _ => True
+  | e :: es, s =>
+    (match e with
+     | .trial t => (astep sim t s).1 ≠ .accepted → (astep sim t s).2.atoms = s.atoms
+     | .newRun p c => (newRun sim s p c).atoms = (userEdit s p c).atoms) ∧
+    AllRestoredE sim es (estep sim e s)
+
+theorem inv_newRun (sim : Sim) (s : State) (p : List V3) (c : Option V3) (h : Inv sim.ens s) :
+    Inv sim.ens (newRun sim s p c) := by
+  unfold newRun
+  exact inv_validate sim (userEdit s p c) h.noAdded h.noDeleted
+
+theorem newRun_atoms (sim : Sim) (s : State) (p : List V3) (c : Option V3) :
+    (newRun sim s p c).atoms = (userEdit s p c).atoms := by
+  unfold newRun validate
+  cases sim.ens <;> rfl
+
+/-- **history_restores_runs** -/
+theorem history_restores_runs (sim : Sim) (hb : sim.ens ≠ .base) (es : List Event) (s : State)
+    (hinv : Inv sim.ens s) (hok : EHistoryOK sim es s) :
+    Inv sim.ens (runE sim es s) ∧ AllRestoredE sim es s := by
+  induction es generalizing s with
+  | nil => exact ⟨hinv, trivial⟩
+  | cons e es ih =>
+    obtain ⟨hk, hrest⟩ := hok
+    cases e with
+    | trial t =>
+      obtain ⟨g1, g2⟩ := astep_spec sim hb t s hinv hk
+      obtain ⟨i1, i2⟩ := ih _ g1 hrest
+      exact ⟨i1, g2, i2⟩
+    | newRun p c =>
+      obtain ⟨i1, i2⟩ := ih _ (inv_newRun sim s p c hinv) hrest
+      exact ⟨i1, newRun_atoms sim s p c, i2⟩
+
 end MM
